@@ -106,6 +106,21 @@ def reload_patterns(rng, tier):
                         lines += ["sim.step", "sim.done", "sim.started", "sim.snap"]
                     lines += ["sim.run 300", "sim.done", "sim.started", "sim.snap", "sim.step", "sim.snap"]
                 yield Case("reload-patterns", lines, None, {"mode": kind, "loads": len(texts)})
+        # calls made on a simulation that has NO program yet (queries, step, run — none of them starts it), then the first load:
+        # it must behave like a load into a fresh simulation
+        for a in ok[:3]:
+            for pre in (["done"], ["step"], ["run"], ["insp"], ["done", "step", "run", "insp"], ["B", "done", "step"]):
+                if kind == "toy":
+                    m = {"done": ["toy.insp 8"], "step": ["toy.call step"], "run": ["toy.run 3"], "insp": ["toy.insp 63"], "B": [f"toy.asm {toyasmgen.hx(rng.choice(bad))}"]}
+                    lines = ["toy.new", "toy.snap"] + [x for q in pre for x in m[q]] + [f"toy.asm {toyasmgen.hx(a)}", "toy.snap"]
+                    lines += ["toy.call step", "toy.snap", "toy.run 300", "toy.snap", "toy.call step", "toy.snap"]
+                else:
+                    m = {"done": ["sim.done"], "step": ["sim.step"], "run": ["sim.run 3"], "insp": ["sim.insp 8191"], "B": [f"sim.load {rvasmgen.hx(rng.choice(bad))}"]}
+                    lines = [f"sim.new {kind} 1 - -", "sim.snap"] + [x for q in pre for x in m[q]] + [f"sim.load {rvasmgen.hx(a)}", "sim.started", "sim.snap"]
+                    for _ in range(6):
+                        lines += ["sim.step", "sim.done", "sim.started", "sim.snap"]
+                    lines += ["sim.run 300", "sim.done", "sim.started", "sim.snap", "sim.step", "sim.snap"]
+                yield Case("reload-patterns", lines, None, {"mode": kind, "loads": 1 + pre.count("B")})
         if kind != "toy":
             # a first step that FAULTS, then a corrected program: whatever `has_started` says afterwards, a load into a
             # simulation that reports "not started" must give the state of a fresh simulation
